@@ -112,7 +112,29 @@ func runC06InWorker(c c06Case) error {
 
 const c06Watchdog = 20 * time.Second
 
+// fileAmplifies: the (possibly mutated) file carries a schema with an array of
+// zero-width items or a zero-width top-level record. Such inputs are excluded
+// by construction (DESIGN.md, C06): a few bytes may legally declare 2^62 items.
+func fileAmplifies(data []byte) bool {
+	lay, _ := ref.ParseFile(data)
+	sj, ok := lay.Meta["avro.schema"]
+	if !ok {
+		return false
+	}
+	s, err := ref.ParseSchema(sj)
+	if err != nil {
+		return false
+	}
+	return amplifies(s) || minWidth(s) == 0
+}
+
+var c06Excluded int64
+
 func c06Verdict(w *iso.Worker, c c06Case) error {
+	if c.Entry == "file" && fileAmplifies(c.Data) {
+		c06Excluded++
+		return nil
+	}
 	resp, outcome, text := w.Call("c06", c, c06Watchdog)
 	switch {
 	case outcome == iso.Died:
@@ -495,4 +517,5 @@ func TestC06(t *testing.T) {
 		}
 	})
 	col.Extra["worker_spawns"] = w.Spawns
+	col.Excluded = c06Excluded
 }
